@@ -83,6 +83,8 @@ RULE = ('history: 1..8 random operations from the full alphabet on volumes with 
         'of every entry point (each kind of the alphabet), then every query kind on the result; non-trivial = at least one '
         'accepted operation that changes shape, affine or array order; distinct by case hash')
 NOT_EXECUTED = ['non-int index items (numpy integers, lists)', 'match_geometry (C09)',
+                'queries get_plane_position(s) / get_plane_orientation / get_pixel_measures / get_affine(convention), '
+                'VolumeToVolumeTransformer.__call__ (only its affine is observed)',
                 'normalize_mean_std / normalize_min_max / clip / astype (value operations, not spatial)']
 EXHAUSTIVE = {'quick': False, 'thorough': False}
 
@@ -910,6 +912,150 @@ def _gen_single(rng):
     return c
 
 
+def _rand_query(rng, shape, shape0, names=None, full=False):
+    """A query event on an object of spatial shape `shape` (shape0 = initial shape)."""
+    n = shape
+
+    def pts_any():
+        k = rng.choice([1, 2, 3])
+        base = [[0, 0, 0], [n[0] - 1, n[1] - 1, n[2] - 1], [1, 0, 0], [0, 1, 0], [0, 0, 1], [-1, n[1], 2]]
+        return [rng.choice(base + [[rng.randint(-2, 6) for _ in range(3)]]) for _ in range(k)]
+
+    def pts_in(sh):
+        k = rng.choice([1, 2, 3])
+        return [rng.choice([[0, 0, 0], [sh[0] - 1, sh[1] - 1, sh[2] - 1], [(x - 1) // 2 for x in sh],
+                            [rng.randrange(x) for x in sh]]) for _ in range(k)]
+
+    def mk(name):
+        if name == 'rt':
+            return ['rt', pts_any()]
+        if name == 'find':
+            return ['find', pts_in(n)]
+        if name == 'probe':
+            return ['probe', pts_in(shape0)]
+        return [name]
+    if names is None:
+        if full:
+            names = ['inv', 'probe'] + rng.sample([x for x in QUERY_NAMES if x not in ('inv', 'probe')],
+                                                  rng.choice([1, 2]))
+            rng.shuffle(names)
+        else:
+            pool = INVERSE_QUERIES * 2 + QUERY_NAMES
+            names = [rng.choice(pool) for _ in range(rng.choice([1, 1, 2, 3]))]
+    return ['query', [mk(x) for x in names]]
+
+
+def _gen_history_query(rng):
+    """A history with coordinate -> index queries before, between and after the operations."""
+    c = _gen_volume(rng, small=rng.random() < 0.5)
+    c['kind'] = 'history_query'
+    c['ops'], c['expect'] = [], []
+    malformed = rng.random() < 0.15
+    nops = rng.choice([1, 1, 2, 2, 3, 4, 6])
+    shape, chans = list(c['shape']), [list(x) for x in c['chans']]
+    if rng.random() < 0.6:
+        c['ops'].append(_rand_query(rng, shape, c['shape']))
+        c['expect'].append(None)
+    for n in range(nops):
+        budget_ok = _size(shape, chans) <= 100 and max(shape) <= 5
+        if malformed and rng.random() < 0.4:
+            op, exp = _malformed_op(rng, shape, chans, c['cs'])
+        else:
+            op, exp = _valid_op(rng, shape, chans, c['cs'], budget_ok), 'ok'
+        c['ops'].append(op)
+        c['expect'].append(exp)
+        shape, chans = _track(c)
+        if n < nops - 1 and rng.random() < 0.5:
+            c['ops'].append(_rand_query(rng, shape, c['shape']))
+            c['expect'].append(None)
+    c['ops'].append(_rand_query(rng, shape, c['shape'], full=True))
+    c['expect'].append(None)
+    return c
+
+
+# one representative of every API entry point that derives a new object (shape-independent ones are
+# fixed, the others are drawn for the shape at hand)
+ENTRY_POINTS = ['get_slice', 'get_int', 'get_step', 'flip', 'permute', 'swap', 'crop_to', 'pad', 'pad_to',
+                'pad_or_crop', 'orient', 'handed_flip', 'handed_swap', 'rand_flip', 'rand_permute', 'rand_crop',
+                'copy', 'with_array', 'get_channel', 'permute_channels', 'squeeze']
+
+
+def _entry_op(rng, name, c):
+    n, chans = c['shape'], c['chans']
+    d = rng.randrange(3)
+    sl = {'s': [None, None, None]}
+    if name == 'get_slice':
+        return ['get', [{'s': [min(1, x - 1), None, None]} for x in n]]
+    if name == 'get_int':
+        return ['get', [sl] * d + [rng.choice([n[d] - 1, -1, 0])]]
+    if name == 'get_step':
+        return ['get', [sl] * d + [{'s': [None, None, rng.choice([-1, 2, -2])]}]]
+    if name == 'flip':
+        return ['flip', rng.choice([d, rng.sample(range(3), 2)])]
+    if name == 'permute':
+        return ['permute', rng.choice([[2, 0, 1], [1, 2, 0], [0, 2, 1], [2, 1, 0]])]
+    if name == 'swap':
+        a, b = rng.sample(range(3), 2)
+        return ['swap', a, b]
+    if name == 'crop_to':
+        return ['crop_to', [max(1, x - rng.choice([1, 1, 2])) for x in n]]
+    if name == 'pad':
+        return ['pad', _rand_pad(rng, n, True), _rand_mode(rng), _rand_cval(rng, None), rng.random() < 0.4]
+    if name == 'pad_to':
+        return ['pad_to', [x + rng.choice([1, 2, 3]) for x in n], _rand_mode(rng), _rand_cval(rng, None), False]
+    if name == 'pad_or_crop':
+        return ['pad_or_crop', [max(1, x + rng.choice([-2, -1, 1, 2])) for x in n], _rand_mode(rng),
+                _rand_cval(rng, None), rng.random() < 0.4]
+    if name == 'orient':
+        o = ''.join(rng.choice(p) for p in rng.sample(['LR', 'AP', 'HF'], 3))
+        return ['orient', o]
+    if name == 'handed_flip':
+        return ['handed', rng.choice(['LEFT_HANDED', 'RIGHT_HANDED']), d, None]
+    if name == 'handed_swap':
+        return ['handed', rng.choice(['LEFT_HANDED', 'RIGHT_HANDED']), None, rng.sample(range(3), 2)]
+    if name == 'rand_flip':
+        return ['rand_flip', [0, 1, 2], rng.randrange(10**6)]
+    if name == 'rand_permute':
+        return ['rand_permute', [0, 1, 2], rng.randrange(10**6)]
+    if name == 'rand_crop':
+        return ['rand_crop', [max(1, x - 1) for x in n], rng.randrange(10**6)]
+    if name == 'copy':
+        return ['copy']
+    if name == 'with_array':
+        sh = list(n) + [len(v) for _, v in chans]
+        return ['with_array', sh, rng.sample(range(1000, 3000), _size(n, chans)), 'int', None]
+    if name == 'get_channel':
+        return ['get_channel', rng.random() < 0.5, [[chans[0][0], chans[0][1][0]]]] if chans else ['copy']
+    if name == 'permute_channels':
+        return ['permute_channels', [x[0] for x in chans][::-1]] if chans else ['copy']
+    if name == 'squeeze':
+        return ['squeeze', None]
+    raise ValueError(name)
+
+
+def _gen_query_op_query(rng, first=None, entry=None):
+    """query kind x entry point: one query, one deriving operation, every query kind on the result
+    (and, half of the time, a second deriving operation and the queries again: inheritance down a chain)."""
+    c = _gen_volume(rng, small=True)
+    c['cs'] = 'PATIENT'
+    c['kind'] = 'query_op_query'
+    first = first or rng.choice(QUERY_NAMES + [None])
+    entry = entry or rng.choice(ENTRY_POINTS)
+    c['ops'] = []
+    if first is not None:
+        c['ops'].append(_rand_query(rng, c['shape'], c['shape'], names=[first]))
+    c['ops'].append(_entry_op(rng, entry, c))
+    shape, chans = _track(c)
+    c['ops'].append(_rand_query(rng, shape, c['shape'], names=list(QUERY_NAMES)))
+    if rng.random() < 0.5:
+        c2 = dict(c, shape=shape, chans=chans)
+        c['ops'].append(_entry_op(rng, rng.choice(ENTRY_POINTS[:16]), c2))
+        shape, chans = _track(c)
+        c['ops'].append(_rand_query(rng, shape, c['shape'], names=rng.sample(QUERY_NAMES, 4) + ['probe']))
+    c['expect'] = [None if op[0] == 'query' else 'ok' for op in c['ops']]
+    return c
+
+
 def gen_cases(rng, tier):
     common.import_highdicom()
     nh = {'quick': 300, 'thorough': 9000, 'search': 3000}[tier]
@@ -931,6 +1077,21 @@ def gen_cases(rng, tier):
                   else _malformed_op(rng, c['shape'], c['chans'], c['cs'])[0])
         c['ops'] = [op]
         cases.append(c)
+    for _ in range(nh // 3):
+        cases.append(_gen_history_query(rng))
+    if tier == 'quick':
+        # every entry point at least once, every query kind as the first query at least once
+        firsts = QUERY_NAMES + [None]
+        for n, e in enumerate(ENTRY_POINTS):
+            cases.append(_gen_query_op_query(rng, firsts[n % len(firsts)] or 'inv', e))
+        for _ in range(nh // 10):
+            cases.append(_gen_query_op_query(rng))
+    else:
+        for f in QUERY_NAMES:
+            for e in ENTRY_POINTS:
+                cases.append(_gen_query_op_query(rng, f, e))
+        for _ in range(nh // 10):
+            cases.append(_gen_query_op_query(rng))
     if tier == 'thorough':
         cases += _exhaustive_small()
     return cases
@@ -1197,6 +1358,110 @@ def _check_step(op, prev, new, prev_dtype_int, expect):
     return None, loc
 
 
+def _check_query(q, ans, cur, first, comp, values_ok, is_geom):
+    """Judge one answer of a query against what the object ITSELF reports (cur = its snapshot) and the
+    oracle's own location map.  Independent of the model: numpy's inverse of the reported affine."""
+    import numpy as np
+    name = q[0]
+    if isinstance(ans, Err):
+        return f'{name}: raised {ans.kind}'
+    A, A0 = _A(cur[1]), _A(first[1])
+    ns = cur[0]
+    scale = max(1.0, float(np.abs(A[:3, :]).max()), float(np.abs(A0[:3, :]).max()))
+    tol = 1e-7 * scale
+
+    def close(a, b, t=tol):
+        a, b = np.asarray(a, dtype=float), np.asarray(b, dtype=float)
+        return a.shape == b.shape and bool(np.all(np.abs(a - b) <= t * (1 + np.abs(b))))
+    if name in ('inv', 'geom'):
+        M = _A(ans)
+        if not close(M @ A, np.eye(4)) or not close(A @ M, np.eye(4)):
+            return (f'{name}: inverse_affine is not the inverse of the affine of the same object '
+                    f'(inverse_affine @ affine = {np.round(M @ A, 6).tolist()})')
+        return None
+    if name == 'rt':
+        want = [float(x) for p_ in q[1] for x in p_]
+        if not close(ans, want, 1e-6):
+            return f'rt: map_reference_to_indices(map_indices_to_reference({q[1]})) = {ans}'
+        return None
+    if name == 'find':
+        if list(ans) != [x for p_ in q[1] for x in p_]:
+            return f'find: looking up the coordinates of voxels {q[1]} leads to {ans}'
+        return None
+    if name in ('xf_to', 'xf_from'):
+        T = _A(ans)
+        ref = np.linalg.inv(A) @ A0 if name == 'xf_to' else np.linalg.inv(A0) @ A
+        if not close(T, ref, 1e-6 * scale):
+            return (f'{name}: VolumeToVolumeTransformer.affine {np.round(T, 6).tolist()} is not '
+                    f'inv(to.affine) @ from.affine = {np.round(ref, 6).tolist()}')
+        # voxel level: a voxel that descends from initial voxel i is mapped from / to i
+        kept = np.argwhere(comp >= 0)
+        if len(kept):
+            fs = first[0]
+            ids = comp[tuple(kept.T)]
+            I = np.stack([ids // (fs[1] * fs[2]), (ids // fs[2]) % fs[1], ids % fs[2]], -1)
+            src, dst = (I, kept) if name == 'xf_to' else (kept, I)
+            got = src @ T[:3, :3].T + T[:3, 3]
+            if not close(got, dst, 1e-6):
+                n_ = int(np.argmax(np.abs(got - dst).max(axis=1)))
+                return (f'{name}: the transformer sends voxel {src[n_].tolist()} to {np.round(got[n_], 6).tolist()} '
+                        f'but the voxel with the same physical coordinate is {dst[n_].tolist()}')
+        return None
+    if name == 'probe':
+        loc0 = _locate((first[0], first[1]), (ns, cur[1]))
+        fs = first[0]
+        nc = [len(v) for _, v in cur[2]] if not is_geom else []
+        arr = None if is_geom else np.array(cur[3], dtype=float).reshape(list(ns) + nc)
+        a0 = np.array(first[3], dtype=float).reshape(list(fs) + [len(v) for _, v in first[2]])
+        if len(ans) != len(q[1]):
+            return 'probe: wrong number of answers'
+        for p_, a in zip(q[1], ans):
+            i = (p_[0] * fs[1] + p_[1]) * fs[2] + p_[2]
+            hit = np.argwhere(loc0 == i)
+            if len(hit) == 0:
+                if a is not None:
+                    return f'probe: initial voxel {p_} is found at {a[0]} but no voxel of the object lies there'
+                continue
+            j = tuple(int(x) for x in hit[0])
+            if a is None:
+                return (f'probe: voxel {list(j)} lies at the coordinate initial voxel {p_} had, but looking that '
+                        f'coordinate up in the object does not find it')
+            if list(a[0]) != list(j):
+                return (f'probe: voxel {list(j)} lies at the coordinate initial voxel {p_} had, but looking that '
+                        f'coordinate up in the object leads to voxel {a[0]}')
+            if not is_geom:
+                if not np.array_equal(np.array(a[1], dtype=float), arr[j].ravel()):
+                    return f'probe: values reported for voxel {list(j)} are not the ones the array holds'
+                if values_ok and comp[j] == i and not np.array_equal(arr[j].ravel(), a0[tuple(p_)].ravel()):
+                    return f'probe: initial voxel {p_} is found at {list(j)} with other values'
+        return None
+    if name == 'sp2':
+        want = [float((A[:3, d] ** 2).sum()) for d in range(3)]
+    elif name == 'dirsp':
+        want = [float(A[i, d]) for d in range(3) for i in range(3)]
+    elif name == 'pos':
+        want = [float(x) for x in A[:3, 3]]
+    elif name == 'center':
+        want = [float(x) for x in (A @ np.array([(n_ - 1) / 2 for n_ in ns] + [1.0]))[:3]]
+    elif name == 'hand':
+        return None if ans == (_det_sign(cur[1]) < 0) else f'hand: left={ans} but det sign is {_det_sign(cur[1])}'
+    else:
+        return f'unknown query {name}'
+    return None if close(ans, want, 1e-9 * scale * scale) else f'{name}: {ans}, the affine of the object gives {want}'
+
+
+def _same_answer(q, a, b):
+    """Volume and geometry must answer alike (the geometry has no values)."""
+    import numpy as np
+    if isinstance(a, Err) or isinstance(b, Err):
+        return isinstance(a, Err) and isinstance(b, Err) and a.kind == b.kind
+    if q[0] == 'probe':
+        return [None if x is None else x[0] for x in a] == [None if x is None else x[0] for x in b]
+    if q[0] in ('hand', 'find'):
+        return a == b
+    return len(a) == len(b) and bool(np.allclose(a, b, rtol=1e-9, atol=1e-9))
+
+
 def _close_list(a, b):
     return len(a) == len(b) and all(abs(x - y) <= 1e-9 * (1 + abs(y)) for x, y in zip(a, b))
 
@@ -1238,6 +1503,18 @@ def oracle(c, out):
         if o == 'RECEIVER-MUTATED':
             return f'step {n} {op[0]}: the receiver was modified'
         ov, og = o
+        if op[0] == 'query':
+            vok = values_comparable and prev[2] == first[2]
+            for q, av, ag in zip(op[1], ov, og):
+                m = _check_query(q, av, prev, first, comp, vok, False)
+                if m:
+                    return f'step {n} query on the volume (after {[x[0] for x in c["ops"][:n]]}): {m}'
+                m = _check_query(q, ag, prev, first, comp, False, True)
+                if m:
+                    return f'step {n} query on the geometry (after {[x[0] for x in c["ops"][:n]]}): {m}'
+                if not _same_answer(q, av, ag):
+                    return f'step {n} query {q[0]}: the volume answers {av}, its geometry answers {ag}'
+            continue
         if op[0] == 'get' and isinstance(op[1], list) and len(op[1]) > 3:
             if not (isinstance(ov, Err) and ov.kind == 'IndexError' and isinstance(og, Err)
                     and og.kind == 'IndexError'):
@@ -1298,11 +1575,12 @@ def nontrivial(c, out):
     if c['kind'] in ('closest', 'geom_with_array'):
         return True
     v = _snap_vol(_mk_volume(c))
-    for o in out:
+    outs = [o for op, o in zip(c['ops'], out) if op[0] != 'query']
+    for o in outs:
         if isinstance(o, list) and not isinstance(o[0], Err) and (o[0][0] != v[0] or o[0][1] != v[1]
                                                                   or o[0][3] != v[3]):
             return True
-    return any(isinstance(o, list) and isinstance(o[0], Err) for o in out)
+    return any(isinstance(o, list) and isinstance(o[0], Err) for o in outs)
 
 
 def shrink(c):
